@@ -48,6 +48,14 @@ U5Ins == [t \in U5Txs |-> CASE t = "b" -> {<<"a", 0>>} [] t = "c" -> {<<"b", 0>>
 U5Deps == [t \in U5Txs |-> {}]
 U5Fee == [t \in U5Txs |-> CASE t = "a" -> 2 [] t = "b" -> 1 [] t = "c" -> 3 [] t = "r3" -> 3 [] t = "r6" -> 6 [] t = "r7" -> 7 [] t = "r8" -> 8]
 U5Size == [t \in U5Txs |-> 1]
+\* ---- U6: a dep group whose member is created in the pool.  k's first output is a dep-group cell listing m#0; u names
+\*          k#0 as a dep group, i.e. (related_dep_out_points) u deps k#0 AND m#0: m and k are both parents of u;
+\*          c spends m#0 (u must stay before c: cell-ref parent through a group member); x conflicts with m
+U6Txs == {"m", "k", "u", "x", "c"}
+U6Ins == [t \in U6Txs |-> CASE t = "m" -> {G(1)} [] t = "k" -> {G(2)} [] t = "u" -> {G(3)} [] t = "x" -> {G(1)} [] t = "c" -> {<<"m", 0>>}]
+U6Deps == [t \in U6Txs |-> CASE t = "u" -> {<<"k", 0>>, <<"m", 0>>} [] OTHER -> {}]
+U6Fee == [t \in U6Txs |-> CASE t = "x" -> 9 [] t = "c" -> 3 [] OTHER -> 1]
+U6Size == [t \in U6Txs |-> 1]
 NoHDeps == [t \in Txs |-> {}]
 UnitCycles == [t \in Txs |-> IF Size[t] = 2 THEN 1 ELSE 2]
 MGenesis == {G(1), G(2), G(3), G(4)}
@@ -71,6 +79,9 @@ MConf_U5 == [maxAnc |-> 3, maxSize |-> 10, rbf |-> TRUE, rbfRate |-> 1000, close
 MConf_U5sim == [maxAnc |-> 3, maxSize |-> 10, rbf |-> TRUE, rbfRate |-> 1000, close |-> 2, far |-> 3, mine |-> TRUE]
 MConf_U5short == [maxAnc |-> 3, maxSize |-> 10, rbf |-> TRUE, rbfRate |-> 1000, close |-> 2, far |-> 3, mine |-> TRUE]
 MConf_U5four == [maxAnc |-> 3, maxSize |-> 10, rbf |-> TRUE, rbfRate |-> 1000, close |-> 2, far |-> 3, mine |-> TRUE]
+MConf_U6 == [maxAnc |-> 3, maxSize |-> 4, rbf |-> TRUE, rbfRate |-> 1000, close |-> 2, far |-> 3, mine |-> TRUE, strictExpire |-> TRUE]
+MConf_U6sim == [maxAnc |-> 3, maxSize |-> 4, rbf |-> TRUE, rbfRate |-> 1000, close |-> 2, far |-> 3, mine |-> TRUE, strictExpire |-> TRUE]
+MConf_U6short == [maxAnc |-> 3, maxSize |-> 4, rbf |-> TRUE, rbfRate |-> 1000, close |-> 2, far |-> 3, mine |-> TRUE, strictExpire |-> TRUE]
 -----------------------------------------------------------------------------
 Staged(P, ch) == [t \in P |-> Stage(t, ch, conf)]
 Log(op) == IF KeepHist THEN Append(hist, op) ELSE hist
@@ -97,7 +108,12 @@ Submit(t) ==
         /\ Finish(P2, chain, {}, [op |-> "submit", t |-> t, ok |-> t \in P2 /\ t \notin pool, repl |-> repl])
 Remove(t) == /\ t \in pool /\ RemoveRel(t, pool, pool \ DescOf({t}, pool))
              /\ Finish(pool \ DescOf({t}, pool), chain, {}, [op |-> "remove", t |-> t])
-        Expire == \E X \in SUBSET pool : \E P2 \in {pool \ X, pool \ DescOf(X, pool)} :
+\* strictExpire (U6): an expiring entry always takes its descendants along, as remove_expired does since f49e5ef; the other
+\* universes keep the looseness of ExpireRel (orphaned descendants may stay) - with four generations (g <- u <- c, m <- c)
+\* a parent resubmitted above such orphans would exceed the ancestor limit, which is the listed finding
+\* ancestor-limit/parent-readded-above-pooled-descendants reached by a path the real pool no longer has
+StrictExpire == "strictExpire" \in DOMAIN conf
+        Expire == \E X \in SUBSET pool : \E P2 \in (IF StrictExpire THEN {pool \ DescOf(X, pool)} ELSE {pool \ X, pool \ DescOf(X, pool)}) :
                                   /\ X # {} /\ ExpireRel(X, pool, P2)
                                   /\ Finish(P2, chain, X, [op |-> "expire", x |-> X])
                              LimitSize == \E P2 \in SUBSET pool : /\ LimitRel(pool, conf, P2) /\ Finish(P2, chain, {}, [op |-> "limit"])
